@@ -110,3 +110,27 @@ CHECKS["C06"] = {
             "to 1e-9, on pairs of deliberately unequal size.",
     "note": _NOTE,
 }
+
+CHECKS["C07"] = {
+    "design_ref": "DESIGN.md section 5 C07",
+    "technique": "offline monotone-chain and nesting checker over a recorded event "
+                 "log of executions differing in one tolerance / of evaluate() "
+                 "results",
+    "text": "Along every recorded chain of executions of one function on one input "
+            "with one tolerance increasing (incl. values equal to an existing "
+            "distance, strict vs non-strict), no hit-derived score decreased; every "
+            "recorded evaluate() result satisfied the documented nesting "
+            "inequalities.",
+    "note": _NOTE,
+}
+CHECKS["C08"] = {
+    "design_ref": "DESIGN.md section 5 C08",
+    "technique": "offline invariance checker over a recorded event log of "
+                 "metric(x,y) / metric(T(x),T(y)) executions (time shift, "
+                 "permutation, label bijection)",
+    "text": "Every recorded pair of executions related by a common exact time "
+            "shift, a permutation of an unordered collection or an independent "
+            "label bijection returned equal scores (1e-9); one origin-dependence "
+            "of multipitch (np.allclose relative tolerance) is a listed finding.",
+    "note": _NOTE,
+}
